@@ -58,4 +58,8 @@ let handle (toks : string list) : string =
       let l = coll_search_ids globs (d = "1") !st ilim in
       String.concat " " (string_of_int (int_of_n (coll_search_count globs (d = "1") !st lim)) ::
         string_of_int (List.length l) :: List.map hex_of_bytes l)
+  | ["count_at"; cursor; limit] ->
+      (* the unfiltered COUNT shortcut with CURSOR and LIMIT: <SCAN COUNT> <SEARCH COUNT> *)
+      let cur = n_of_int (int_of_string cursor) and lim = n_of_int (int_of_string limit) in
+      Printf.sprintf "%d %d" (int_of_n (coll_scan_count_at !st cur lim)) (int_of_n (coll_search_count_at !st cur lim))
   | _ -> "?unknown"
